@@ -243,6 +243,32 @@ class State:
                 return True
         if fast:
             return False
+        # scaled combinations: lin - k*c (k > 1 chosen so that a shared symbol cancels), then one more constraint the same way
+        def scaled(l_, c_, least=2):
+            for s_, a_ in l_.co.items():
+                b_ = c_.co.get(s_)
+                if b_ and (a_ > 0) == (b_ > 0) and a_ % b_ == 0 and a_ // b_ >= least:
+                    return c_.scale(a_ // b_)
+            return None
+        if len(self.cons) <= 60:
+            for c in cons:
+                for ck in (scaled(lin, c), c):
+                    if ck is None:
+                        continue
+                    d1 = lin - ck
+                    if ck is not c:
+                        u = self.ub(d1)
+                        if u is not None and u <= 0:
+                            return True
+                    for c2 in self.cons:
+                        if c2 is c or not any(s in d1.co for s in c2.co):
+                            continue
+                        c2k = scaled(d1, c2, 1 if ck is not c else 2)
+                        if c2k is None:
+                            continue
+                        u = self.ub(d1 - c2k)
+                        if u is not None and u <= 0:
+                            return True
         n = len(cons)
         if n <= 40:
             for i in range(n):
